@@ -174,7 +174,7 @@ func c13Nontrivial(text string, forms []int) bool {
 	return esc && special
 }
 
-var c13Alphabet = []string{"a", " ", "'", "\"", "\\", "\n", "\r", "\t", "\b", "\f", "\v", "\x00", "\u2028", "\u2029", "\u0085", "é", "ÿ", "中", "￿", "😀", "\xff", "\x80", "x", "u", "0", "n", "1", "\x7f", "\x1b"}
+var c13Alphabet = []string{"a", " ", "'", "\"", "\\", "\n", "\r", "\t", "\b", "\f", "\v", "\x00", "\u2028", "\u2029", "\u0085", "\uff07", "\uff02", "\u2019", "\uff3c", "é", "ÿ", "中", "￿", "😀", "\xff", "\x80", "x", "u", "0", "n", "1", "\x7f", "\x1b"}
 
 // TestC13Exhaustive: all texts of length <=2 over the alphabet x all escape
 // choices x both quotes x hex case; plus the unterminated variants.
@@ -253,11 +253,23 @@ func TestC13Exhaustive(t *testing.T) {
 	run.Exhaustive()
 }
 
+// c13Confusables: code points a reader (or an input method) may take for ' " \ and the other punctuation.
+var c13Confusables = func() []rune {
+	out := []rune{0x2018, 0x2019, 0x201A, 0x201B, 0x201C, 0x201D, 0x201E, 0x2032, 0x2033, 0x2035, 0x00B4, 0x0060, 0x02B9, 0x02BA, 0x02BC, 0x02C8, 0x05F3, 0x05F4, 0xA78C, 0x275B, 0x275C, 0x275D, 0x275E, 0x301D, 0x301E,
+		0x2216, 0x29F5, 0x29F9, 0xFE68, 0x2044, 0x2215, 0x00A0, 0x200B, 0x2028, 0x2060, 0xFEFF}
+	for r := rune(0xFF01); r <= 0xFF5E; r++ { // full-width ASCII
+		out = append(out, r)
+	}
+	return out
+}()
+
 func genText(t *rapid.T, maxLen int) string {
 	n := rapid.IntRange(0, maxLen).Draw(t, "n")
 	var b []byte
 	for i := 0; i < n; i++ {
-		switch rapid.IntRange(0, 7).Draw(t, "cls") {
+		switch rapid.IntRange(0, 8).Draw(t, "cls") {
+		case 8: // characters that look like the language's own punctuation: full-width forms, typographic quotes, other slashes
+			b = utf8.AppendRune(b, rapid.SampledFrom(c13Confusables).Draw(t, "confusable"))
 		case 0, 1:
 			b = append(b, byte(rapid.IntRange(0x20, 0x7e).Draw(t, "ascii")))
 		case 2:
@@ -279,7 +291,7 @@ func genText(t *rapid.T, maxLen int) string {
 
 // TestC13Random: random texts, random escape choices.
 func TestC13Random(t *testing.T) {
-	run := h.Begin("C13", "random", "rapid: texts up to 40 characters over printable ASCII, C0 controls, quotes/backslashes and escape look-alikes, all line breaks, BMP and astral code points, invalid UTF-8 bytes; a reference escaper draws one allowed form per character; both quote styles; oracle and non-trivial rule as in the exhaustive part; distinct by literal")
+	run := h.Begin("C13", "random", "rapid: texts up to 40 characters over printable ASCII, C0 controls, quotes/backslashes and escape look-alikes, all line breaks, BMP and astral code points, characters that look like the language's punctuation (full-width forms, typographic quotes, other slashes), invalid UTF-8 bytes; a reference escaper draws one allowed form per character; both quote styles; oracle and non-trivial rule as in the exhaustive part; distinct by literal")
 	defer run.End(t)
 	h.RapidSetup(h.N(4000, 1500000), "c13rand")
 	rapid.Check(t, func(rt *rapid.T) {
